@@ -439,28 +439,8 @@ def r195(ctx, R):
     R.count('R19.5', n, 5)
 
 
-def r196(ctx, R):
+def sync_difference(ctx, R, rule):
     prog = ctx.prog
-    la = prog.func('placement.deploy:loadapp')
-    ud = prog.func('placement.deploy:update_database')
-    R.ob('R19.6', 'loadapp:calls-update_database',
-         len(C.calls_to(ctx, la, ud.qbase)) == 1,
-         'loadapp() runs update_database()', '', func=la)
-    g = cfgmod.cfg_of(ud)
-    for q in (TM + ':ensure_sync', RCM + ':ensure_sync'):
-        cs = C.calls_to(ctx, ud, q)
-        ok = len(cs) == 1 and g.must_pass(cfgmod.ENTRY, cfgmod.EXIT,
-                                          {C.stmt_of(cs[0])})
-        R.ob('R19.6', 'update_database:%s' % q, ok,
-             'start-up always synchronises the standard names',
-             '%d calls' % len(cs), func=ud)
-    for q, inner in ((TM + ':ensure_sync', TM + ':_trait_sync'),
-                     (RCM + ':ensure_sync', RCM + ':_resource_classes_sync')):
-        f = prog.func(q)
-        cs = C.calls_to(ctx, f, inner)
-        R.ob('R19.6', '%s:calls-sync' % q, len(cs) == 1,
-             'ensure_sync calls the sync function', len(cs), func=f,
-             nontrivial=False)
     # trait sync: insert only std - stored
     f = prog.func(TM + ':_trait_sync')
     diff = [n for n in own_nodes(f.node) if isinstance(n, ast.Assign)
@@ -485,7 +465,7 @@ def r196(ctx, R):
             if ok:
                 d = c05.single_def(f, ex.args[1].id)
                 ok = d is not None and d.value is ba[0]
-    R.ob('R19.6', '_trait_sync:inserts-difference', ok,
+    R.ob(rule, '_trait_sync:inserts-difference', ok,
          'only standard traits missing from the table are inserted', why,
          func=f)
     f = prog.func(RCM + ':_resource_classes_sync')
@@ -507,9 +487,34 @@ def r196(ctx, R):
         ins = [e for e in ctx.effects.direct[f] if e.op == 'I']
         ok = okid and okf and len(ins) == 1
         why = 'id=%s filter=%s' % (okid, cond)
-    R.ob('R19.6', '_resource_classes_sync:inserts-difference-with-index', ok,
+    R.ob(rule, '_resource_classes_sync:inserts-difference-with-index', ok,
          'only standard classes missing from the table are inserted, with '
          'their enumeration index as id', why, func=f)
+
+
+def r196(ctx, R):
+    prog = ctx.prog
+    la = prog.func('placement.deploy:loadapp')
+    ud = prog.func('placement.deploy:update_database')
+    R.ob('R19.6', 'loadapp:calls-update_database',
+         len(C.calls_to(ctx, la, ud.qbase)) == 1,
+         'loadapp() runs update_database()', '', func=la)
+    g = cfgmod.cfg_of(ud)
+    for q in (TM + ':ensure_sync', RCM + ':ensure_sync'):
+        cs = C.calls_to(ctx, ud, q)
+        ok = len(cs) == 1 and g.must_pass(cfgmod.ENTRY, cfgmod.EXIT,
+                                          {C.stmt_of(cs[0])})
+        R.ob('R19.6', 'update_database:%s' % q, ok,
+             'start-up always synchronises the standard names',
+             '%d calls' % len(cs), func=ud)
+    for q, inner in ((TM + ':ensure_sync', TM + ':_trait_sync'),
+                     (RCM + ':ensure_sync', RCM + ':_resource_classes_sync')):
+        f = prog.func(q)
+        cs = C.calls_to(ctx, f, inner)
+        R.ob('R19.6', '%s:calls-sync' % q, len(cs) == 1,
+             'ensure_sync calls the sync function', len(cs), func=f,
+             nontrivial=False)
+    sync_difference(ctx, R, 'R19.6')
     R.count('R19.6', 1, 1)
 
 
